@@ -2,6 +2,8 @@ package main
 
 import (
 	"fmt"
+	"go/ast"
+	"go/token"
 	"go/types"
 	"sort"
 	"strings"
@@ -12,9 +14,9 @@ import (
 
 func init() {
 	register(&PropSpec{
-		ID: "C11",
+		ID:          "C11",
 		Explanation: "Structural necessary conditions for 'every message survives encode/decode in both encodings'. M1: every type switch of the converter package is total over the implementers of the interface it switches on (or rejects the rest explicitly), and the encode-direction and decode-direction switches are mutually inverse on message/wrapper types (top-level messages, metadata variants, id-or-alias variants). M2: every keyed struct literal of a protocol struct in the converters keys all fields (XXX_* excepted) unless the field is assigned later in the same function; the empty literal is the accepted zero idiom. M5: the result-code and QoS enum switches are total over the distinct values of their tag type and their composition decode∘encode is the identity up to the documented many-to-one pairs. M6: both codecs go through the same converter functions.",
-		NotDecided: []string{"value-level round trip and canonical forms", "JSON ≡ protobuf on values", "byte counts", "anything inside gogo/protobuf and jsonpb"},
+		NotDecided:  []string{"value-level round trip and canonical forms", "JSON ≡ protobuf on values", "byte counts", "anything inside gogo/protobuf and jsonpb"},
 		Assumptions: []string{"tables are extracted from switch statements in encoding/convert (a converter rewritten in another form makes the rule report UNDECIDED rather than pass)"},
 		Rules: func(r *Run) {
 			pk := r.P.ByPath[modPath+"/encoding/convert"]
@@ -216,6 +218,14 @@ func ruleC11M2(r *Run, pk *packages.Package) {
 	for _, sl := range lits {
 		if sl.Empty {
 			empty++
+			// the empty literal drops every field: it is the accepted zero idiom only where a parameter of the
+			// converter was just proven nil (nothing to copy); under any wider condition it loses data
+			if nf := nonXXXFields(sl.Type); nf > 0 && sl.Holder == nil {
+				okGuard, why := emptyLitGuard(pk, sl)
+				perFn[sl.Fn.Name.Name+"/empty/"+tname(sl.Type)]++
+				r.Check(fmt.Sprintf("%s empty %s#%d", sl.Fn.Name.Name, tname(sl.Type), perFn[sl.Fn.Name.Name+"/empty/"+tname(sl.Type)]), okGuard, p.pos(sl.Pos), sl.Fn.Name.Name,
+					fmt.Sprintf("the empty literal %s{} (%d fields dropped) must be produced only where a pointer parameter of the converter is nil: %s", tname(sl.Type), nf, why))
+			}
 			// the "nil in ⇒ zero out" idiom is only sound when the zero value is itself acceptable to the decoder
 			if sl.Type.Obj().Pkg().Path() == modPath+"/message" {
 				st := sl.Type.Underlying().(*types.Struct)
@@ -452,4 +462,65 @@ func ruleC11M3(r *Run, pk *packages.Package) {
 	}
 	r.Stat("field_pairs", len(pairs))
 	r.Stat("cross_side_pairs_with_inverse_candidate", n)
+}
+
+func nonXXXFields(n *types.Named) int {
+	st, ok := n.Underlying().(*types.Struct)
+	if !ok {
+		return 0
+	}
+	k := 0
+	for i := 0; i < st.NumFields(); i++ {
+		if !strings.HasPrefix(st.Field(i).Name(), "XXX_") {
+			k++
+		}
+	}
+	return k
+}
+
+// emptyLitGuard: the innermost enclosing if statement holds the literal in its then-branch and its condition is a
+// conjunction one of whose conjuncts is `p == nil` for a parameter p of the enclosing function (no disjunction).
+func emptyLitGuard(pk *packages.Package, sl *structLit) (bool, string) {
+	if len(sl.Guards) == 0 {
+		return false, "the literal is not under any condition"
+	}
+	g := sl.Guards[0]
+	if !g.Then {
+		return false, "the literal is in an else branch of " + types.ExprString(g.Cond)
+	}
+	params := map[types.Object]bool{}
+	if sl.Fn.Type.Params != nil {
+		for _, f := range sl.Fn.Type.Params.List {
+			for _, id := range f.Names {
+				params[pk.TypesInfo.Defs[id]] = true
+			}
+		}
+	}
+	var conj func(e ast.Expr) bool
+	conj = func(e ast.Expr) bool {
+		switch x := e.(type) {
+		case *ast.ParenExpr:
+			return conj(x.X)
+		case *ast.BinaryExpr:
+			if x.Op == token.LAND {
+				return conj(x.X) || conj(x.Y)
+			}
+			if x.Op == token.EQL {
+				a, b := x.X, x.Y
+				if id, ok := b.(*ast.Ident); ok && id.Name == "nil" {
+					a, b = b, a
+				}
+				if id, ok := a.(*ast.Ident); ok && id.Name == "nil" && pk.TypesInfo.Uses[id] == types.Universe.Lookup("nil") {
+					if pid, isId := b.(*ast.Ident); isId && params[pk.TypesInfo.Uses[pid]] {
+						return true
+					}
+				}
+			}
+		}
+		return false
+	}
+	if conj(g.Cond) {
+		return true, "guarded by " + types.ExprString(g.Cond)
+	}
+	return false, "its condition is `" + types.ExprString(g.Cond) + "`, which is true for non-nil inputs too"
 }
